@@ -207,8 +207,11 @@ func (t *tailBuf) String() string { t.mu.Lock(); defer t.mu.Unlock(); return str
 
 func startWorker(propID string) (*workerProc, error) {
 	self, _ := os.Executable()
+	if alt := os.Getenv("HARNESS_WORKER_BIN"); alt != "" { // e.g. the race-detector build (C16)
+		self = alt
+	}
 	cmd := exec.Command(self, "worker", "-prop", propID)
-	cmd.Env = append(os.Environ(), "GOMEMLIMIT=3GiB", "GOTRACEBACK=single")
+	cmd.Env = append(os.Environ(), "GOMEMLIMIT=3GiB", "GOTRACEBACK=single", "GORACE=halt_on_error=1 exitcode=66")
 	in, _ := cmd.StdinPipe()
 	out, _ := cmd.StdoutPipe()
 	tb := &tailBuf{}
